@@ -605,6 +605,8 @@ def gen_jobs(seed: int, tier: str, scale: int = 1):
     sm = list(small_sigs())
     for i, sig in enumerate(sm):
         calls = list(small_calls(sig, i))
+        if quick:                                    # quick: every other call shape per signature, the other half under seed+1
+            calls = [c for j, c in enumerate(calls) if (i + j + seed) % 2 == 0]
         jobs.append((len(jobs), sig, calls, 'alt' if quick else 1))
     n_small = len(jobs)
     counts = list(itertools.product((0, 1, 2), (0, 1, 2), (0, 1), (0, 1, 2), (0, 1)))
@@ -742,7 +744,8 @@ def explore(ck: Check, tier: str, seed: int, scale: int = 1) -> Explore:
     ex = Explore(rule='case = (signature, call, set of failing (parameter, object) validators, body returns/raises); '
                       'signatures: every one with <=1 parameter per kind (all annotated subsets, legal defaults, return) '
                       'x call shapes with <=4 positionals and <=3 keywords from a 5-name pool incl. the positional-only '
-                      'name, every kind-count vector with <=2 per kind, and random ones with <=4 per kind x seeded calls; '
+                      'name (quick tier: half of the shapes per signature, alternating with the seed; thorough: all), '
+                      'every kind-count vector with <=2 per kind, and random ones with <=4 per kind x seeded calls; '
                       'non-trivial = all-pass case on a signature with >=2 parameter kinds where >=2 checks ran and a value '
                       'went by keyword / into *args / into **kwargs, or the call does not bind after >=1 check; '
                       'distinct = distinct (signature, call)')
